@@ -220,6 +220,12 @@ impl Op {
                 c * 3.0
             }
             Op::FillIter { .. } => match self.bounds() {
+                // A polygon of zero width but non-zero height makes FillIter
+                // start its cursor at `bounds.right()`, so `cursor.x ==
+                // bounds.right()` is only reached again after the i32 X
+                // coordinate wraps: 2^32 steps per row (observed: ~12 s for a
+                // 3-pixel vertical segment). Not a C36 question; never run.
+                Some((y0, y1, x0, x1)) if x0 == x1 && y1 > y0 => f64::INFINITY,
                 Some((y0, y1, x0, x1)) => (y1 - y0 + 1) as f64 * (x1 - x0 + 1) as f64,
                 None => 1.0,
             },
@@ -367,6 +373,9 @@ fn exec_t<T: Px>(c: &Case, pos: GuardPos) -> Exec {
 }
 
 pub fn exec(c: &Case, pos: GuardPos) -> Exec {
+    if std::env::var_os("IMGCHECK_TRACE").is_some() {
+        eprintln!("exec {} img={}x{} {:?} wide={} cost={}", c.op.text(), c.h, c.w, c.lay, c.wide_elem, c.op.cost(c.h, c.w));
+    }
     if c.wide_elem { exec_t::<u32>(c, pos) } else { exec_t::<u8>(c, pos) }
 }
 
@@ -454,98 +463,118 @@ fn same_failure(a: Verdict, b: Verdict) -> bool {
 
 const MAX_COST: f64 = 3e5;
 
-fn shrink(mut c: Case, v: Verdict) -> Case {
-    let extreme0 = c.op.extreme();
-    let mut budget = 250;
-    let test = |cand: &Case, budget: &mut i32| -> bool {
-        if *budget <= 0 || cand.op.cost(cand.h, cand.w) > MAX_COST || (cand.op.extreme() && !extreme0) {
-            return false;
-        }
-        *budget -= 1;
-        same_failure(verdict_in_child(cand), v)
-    };
-    for _round in 0..4 {
-        let before = c.clone();
-        if c.wide_elem {
-            let cand = Case { wide_elem: false, ..c.clone() };
-            if test(&cand, &mut budget) {
-                c = cand;
+/// Index of the first candidate that fails the same way as `v`. For a
+/// non-fault verdict all candidates are judged in ONE child (exit code =
+/// index + 1); a fault verdict needs one child per candidate.
+fn first_match(cands: &[Case], v: Verdict, forks: &mut i32) -> Option<usize> {
+    let cands: Vec<&Case> = cands.iter().take(200).collect();
+    if cands.is_empty() || *forks <= 0 {
+        return None;
+    }
+    match v {
+        Verdict::Fail(kind) => {
+            *forks -= 1;
+            let r = in_child(|| {
+                for (i, c) in cands.iter().enumerate() {
+                    for pos in [GuardPos::After, GuardPos::Before] {
+                        if let Some(f) = judge(c, &exec(c, pos)) {
+                            if f.kind == kind {
+                                return i as i32 + 1;
+                            }
+                            break;
+                        }
+                    }
+                }
+                0
+            });
+            match r {
+                Ok(code) if code >= 1 && (code as usize) <= cands.len() => Some(code as usize - 1),
+                _ => None,
             }
         }
-        if c.lay != Lay::Contiguous {
-            let cand = Case { lay: Lay::Contiguous, ..c.clone() };
-            if test(&cand, &mut budget) {
-                c = cand;
-            }
-        }
-        // polygon: drop vertices
-        if let Op::Polygon { pts, .. } | Op::Painter { pts, .. } | Op::FillIter { pts } = &c.op {
-            let mut i = 0;
-            let mut cur = pts.clone();
-            while i < cur.len() {
-                let mut p2 = cur.clone();
-                p2.remove(i);
-                let flat: Vec<i32> = p2.iter().flat_map(|p| [p.0, p.1]).collect();
-                let cand = Case { op: c.op.with_coords(&flat), ..c.clone() };
-                if test(&cand, &mut budget) {
-                    cur = p2;
-                    c = cand;
-                } else {
-                    i += 1;
+        Verdict::Fault(_) => {
+            for (i, c) in cands.iter().enumerate() {
+                if *forks <= 0 {
+                    return None;
+                }
+                *forks -= 1;
+                if same_failure(verdict_in_child(c), v) {
+                    return Some(i);
                 }
             }
+            None
         }
-        if let Some(wd) = c.op.width() {
-            for nw in [1u32, 2, wd.saturating_sub(1)] {
-                if nw < wd {
-                    let cand = Case { op: c.op.with_width(nw), ..c.clone() };
-                    if test(&cand, &mut budget) {
-                        c = cand;
-                        break;
+        Verdict::Clean => None,
+    }
+}
+
+fn shrink(mut c: Case, v: Verdict) -> Case {
+    let extreme0 = c.op.extreme();
+    let mut forks = 150;
+    let ok = |cand: &Case| cand.op.cost(cand.h, cand.w) <= MAX_COST && (!cand.op.extreme() || extreme0);
+    for _round in 0..3 {
+        let before = c.clone();
+        // element type, layout, stroke width, image size: repeat while any applies
+        loop {
+            let mut cands: Vec<Case> = Vec::new();
+            if c.wide_elem {
+                cands.push(Case { wide_elem: false, ..c.clone() });
+            }
+            if c.lay != Lay::Contiguous {
+                cands.push(Case { lay: Lay::Contiguous, ..c.clone() });
+            }
+            if let Some(wd) = c.op.width() {
+                for nw in [1u32, 2, wd.saturating_sub(1)] {
+                    if nw < wd {
+                        cands.push(Case { op: c.op.with_width(nw), ..c.clone() });
                     }
                 }
             }
-        }
-        // image size
-        for _ in 0..12 {
-            let mut any = false;
-            if c.h > 0 {
-                let cand = Case { h: c.h - 1, ..c.clone() };
-                if test(&cand, &mut budget) {
-                    c = cand;
-                    any = true;
+            if let Op::Painter { pts, width, channels: 4 } = &c.op {
+                cands.push(Case { op: Op::Painter { pts: pts.clone(), width: *width, channels: 3 }, ..c.clone() });
+            }
+            for (nh, nw) in [(c.h / 2, c.w / 2), (c.h / 2, c.w), (c.h, c.w / 2), (c.h.saturating_sub(1), c.w), (c.h, c.w.saturating_sub(1))] {
+                if (nh, nw) != (c.h, c.w) {
+                    cands.push(Case { h: nh, w: nw, ..c.clone() });
                 }
             }
-            if c.w > 0 {
-                let cand = Case { w: c.w - 1, ..c.clone() };
-                if test(&cand, &mut budget) {
-                    c = cand;
-                    any = true;
+            // polygon: drop one vertex
+            if let Op::Polygon { pts, .. } | Op::Painter { pts, .. } | Op::FillIter { pts } = &c.op {
+                for i in 0..pts.len() {
+                    let mut p2 = pts.clone();
+                    p2.remove(i);
+                    let flat: Vec<i32> = p2.iter().flat_map(|p| [p.0, p.1]).collect();
+                    cands.push(Case { op: c.op.with_coords(&flat), ..c.clone() });
                 }
             }
-            if !any {
-                break;
+            cands.retain(|x| ok(x));
+            match first_match(&cands, v, &mut forks) {
+                Some(i) => c = cands[i].clone(),
+                None => break,
             }
         }
         // coordinates towards 0
-        let mut coords = c.op.coords();
-        for i in 0..coords.len() {
-            let cur = coords[i];
-            for cand_v in [0, cur / 2, cur - cur.signum()] {
-                if cand_v == cur {
-                    continue;
-                }
-                let mut cc = coords.clone();
-                cc[i] = cand_v;
-                let cand = Case { op: c.op.with_coords(&cc), ..c.clone() };
-                if test(&cand, &mut budget) {
-                    coords = cc;
-                    c = cand;
-                    break;
+        loop {
+            let coords = c.op.coords();
+            let mut cands: Vec<Case> = Vec::new();
+            for i in 0..coords.len() {
+                let cur = coords[i];
+                for cand_v in [0, cur / 2, cur - cur.signum()] {
+                    if cand_v != cur {
+                        let mut cc = coords.clone();
+                        cc[i] = cand_v;
+                        cands.push(Case { op: c.op.with_coords(&cc), ..c.clone() });
+                    }
                 }
             }
+            cands.retain(|x| ok(x));
+            cands.dedup();
+            match first_match(&cands, v, &mut forks) {
+                Some(i) => c = cands[i].clone(),
+                None => break,
+            }
         }
-        if c == before || budget <= 0 {
+        if c == before || forks <= 0 {
             break;
         }
     }
@@ -579,6 +608,20 @@ fn case_from_witness(w: &Json) -> Case {
 }
 
 fn report(rep: &mut Report, c: &Case, v: Verdict, origin: &str, do_shrink: bool) {
+    // Shrinking forks a few hundred children: keep a few witnesses per
+    // (primitive, kind) and only count the rest.
+    let vk = match v {
+        Verdict::Fault(_) => "fault",
+        Verdict::Fail(k) => k,
+        Verdict::Clean => "clean",
+    };
+    rep.count(&format!("violating_cases:draw:{}:{}", c.op.name(), vk));
+    let key = format!("reported:{}:{}", c.op.name(), vk);
+    if do_shrink && *rep.counters.get(&key).unwrap_or(&0) >= 3 {
+        rep.suppressed_violations += 1;
+        return;
+    }
+    rep.count(&key);
     let sc = if do_shrink { shrink(c.clone(), v) } else { c.clone() };
     let (kind, detail) = match verdict_in_child(&sc) {
         Verdict::Fault(sig) => ("fault".to_string(), format!("the call died with signal {} (the image buffer lies against a PROT_NONE page: an access outside the buffer)", sig)),
@@ -600,7 +643,6 @@ fn report(rep: &mut Report, c: &Case, v: Verdict, origin: &str, do_shrink: bool)
         rep.count("harness:shrunk_case_unreproducible");
         return;
     }
-    rep.count(&format!("violating_cases:draw:{}", kind));
     rep.violation(
         format!("C36|draw|{}|{}|img={}x{}|layout={}|elem={}", kind, sc.op.text(), sc.h, sc.w, lay_name(sc.lay), if sc.wide_elem { "u32" } else { "u8" }),
         format!("{} on a {}x{} image ({}): {}", sc.op.text(), sc.h, sc.w, lay_name(sc.lay), detail),
@@ -770,6 +812,9 @@ pub fn run(rep: &mut Report, args: &Args) {
             case_no += 1;
             if c.op.cost(c.h, c.w) > MAX_COST {
                 rep.count("generated_but_skipped_too_expensive");
+                if c.op.cost(c.h, c.w).is_infinite() {
+                    rep.count("observed:fill_iter_zero_width_polygon_not_run(2^32_steps_per_row)");
+                }
                 if case_no > 20 * n + 1000 {
                     break;
                 }
